@@ -31,7 +31,12 @@ RULE = ('exhaustive: every index j from the first (ANSI 0, others 1) up to the t
         'through the inverse maps; plus order independence: before anything else, and again after each ascending sweep, '
         'every map is asked non-ascending sequences (all ordered pairs of the first 24 indices, (next block, block end), '
         '(two blocks on, block end), ping-pong around block ends, a descending run, a seeded random permutation of 1..10^4) '
-        'and must give the answer of the model / of a fresh process.  A case is non-trivial unless it is the first index; distinct = distinct (item, index).')
+        'and must give the answer of the model / of a fresh process.  A case is non-trivial unless it is the first index; distinct = distinct (item, index).  '
+        'Names (session 3): nm_to_name on EVERY valid (n,m), n<=80 (quick) / 400 (thorough), every third pair as np.int64, the string parsed back '
+        'into (kind, ordinal, column, suffix) with the real tables and compared with the Lean model, all names pairwise different; '
+        'zernikes_to_magnitude_angle(_nmkey) and top_n on seeded coefficient lists built from the first N<=400 orders of Noll / ANSI / Fringe '
+        '(natural, reversed, shuffled, terms dropped so that +-m partners are missing, single column), random non-zero coefficients and random k; '
+        'non-trivial when a list has both paired and unpaired terms / k>1.')
 ASSUMPTIONS = ['np.sqrt is correctly rounded and np.ceil/np.floor are exact on doubles (IEEE-754); the exact-integer '
                'reading of ceil(sqrt(.)) used by the translator is validated against NumPy on every index of the sweep '
                'and at the square / triangular boundaries below 2^52, not proved',
@@ -55,12 +60,18 @@ class _limit:
     def _raise(self, *a):
         raise _Timeout()
 
+    # the limit is on the CPU time of this process (a broken loop burns CPU; a machine that stalls because many checks run
+    # in parallel does not), with a wall-clock backstop at ten times the limit
     def __enter__(self):
         self.old = signal.signal(signal.SIGALRM, self._raise)
-        signal.setitimer(signal.ITIMER_REAL, self.seconds)
+        self.oldv = signal.signal(signal.SIGVTALRM, self._raise)
+        signal.setitimer(signal.ITIMER_REAL, 10 * self.seconds)
+        signal.setitimer(signal.ITIMER_VIRTUAL, self.seconds)
 
     def __exit__(self, *a):
+        signal.setitimer(signal.ITIMER_VIRTUAL, 0)
         signal.setitimer(signal.ITIMER_REAL, 0)
+        signal.signal(signal.SIGVTALRM, self.oldv)
         signal.signal(signal.SIGALRM, self.old)
         return False
 
@@ -153,8 +164,16 @@ def _call(f, *args, limit=20.0):
         with _limit(limit):
             r = f(*args)
     except _Timeout:
-        _DEAD.add(name)
-        return 'timeout', f'no result within {limit} s'
+        # a wall-clock limit can also expire because the whole machine stalled (many checks in parallel): the call is
+        # repeated once with three times the limit before the map is declared non-terminating
+        try:
+            with _limit(3 * limit):
+                r = f(*args)
+        except _Timeout:
+            _DEAD.add(name)
+            return 'timeout', f'no result within {limit} s, nor within {3 * limit} s when repeated'
+        except Exception as ex:   # noqa
+            return 'raised', f'{type(ex).__name__}: {ex}'
     except Exception as ex:   # noqa
         return 'raised', f'{type(ex).__name__}: {ex}'
     try:
@@ -491,6 +510,9 @@ def _chunks(lo, hi, size):
 def correspondence(ctx):
     warnings.simplefilter('ignore', RuntimeWarning)      # NumPy overflow warnings of fixed-width inputs: results are compared, not warnings
     fwd, inv = _impl()
+    # a degraded tie of a name-layer item widens the name families only, not the sweeps of the index maps
+    ctx.widen_names = any(u in NAME_ITEMS for u in ctx.untranslatable)
+    ctx.widen = any(u not in NAME_ITEMS for u in ctx.untranslatable)
     J = ctx.scale(10 ** 5, 10 ** 6)
     if ctx.widen:
         J = max(J, 2 * 10 ** 5)
@@ -735,6 +757,471 @@ def correspondence(ctx):
         if st != 'raised':
             ctx.disagree('xy_reject', {'j': j}, val, 'raise (index below the first)')
 
+    # ------------------------------------------------------------ names, pairing of the +-m terms, top_n ordering
+    _names_correspondence(ctx)
+
+
+# ------------------------------------------------------------------------------------------------
+# session 3: the other index-convention helpers (names of the orders, pairing of the +-m terms, top_n ordering)
+# ------------------------------------------------------------------------------------------------
+_SUFFIX = {'X': 0, 'Y': 1, '00°': 2, '45°': 3}
+
+
+def _call2(f, *args, limit=20.0):
+    """('ok', raw value) | ('raised', text) | ('timeout', text)"""
+    try:
+        with _limit(limit):
+            return 'ok', f(*args)
+    except _Timeout:
+        return 'timeout', f'no result within {limit} s'
+    except Exception as ex:   # noqa
+        return 'raised', f'{type(ex).__name__}: {ex}'
+
+
+def _zk():
+    import prysm.polynomials as P
+    from prysm.polynomials import zernike as Z
+    return P, Z
+
+
+def _parse_name(Z, s):
+    """exception-safe front of _parse_name0 (a module without the two tables, odd strings: None)"""
+    try:
+        return _parse_name0(Z, s)
+    except Exception:   # noqa
+        return None
+
+
+def _parse_name0(Z, s):
+    """real name -> (kind, ordinal, |m| of the column-name table, suffix), the structure `Model.C11.nameKey` describes;
+    None when the string does not have that structure.  The two tables are read from the real module."""
+    if not isinstance(s, str):
+        return None
+    if s == 'Piston':
+        return (0, 0, 0, 4)
+    if s == 'Defocus':
+        return (2, 0, 0, 4)
+    inv_o = {v: k for k, v in Z._names.items()}
+    inv_m = {v: k for k, v in Z._names_m.items()}
+
+    def num(w, tail):
+        if w in (inv_o if tail == 'th' else inv_m):
+            return (inv_o if tail == 'th' else inv_m)[w]
+        if w.endswith(tail) and w[:-len(tail)].lstrip('-').isdigit():
+            return int(w[:-len(tail)])
+        return None
+    parts = s.split(' ')
+    if len(parts) == 2:
+        if parts[0] == 'Tilt' and parts[1] in ('X', 'Y'):
+            return (1, 0, 1, _SUFFIX[parts[1]])
+        if parts[1] == 'Spherical':
+            o = num(parts[0], 'th')
+            return None if o is None else (3, o, 0, 4)
+        return None
+    if len(parts) == 3 and parts[2] in _SUFFIX:
+        o, a = num(parts[0], 'th'), num(parts[1], '-foil')
+        if o is None or a is None:
+            return None
+        return (4, o, a, _SUFFIX[parts[2]])
+    return None
+
+
+def _name_key(n, m):
+    """python mirror of Model.C11.nameKey (search / replay only; the correspondence asks the Lean driver)"""
+    if n == 0:
+        return (0, 0, 0, 4)
+    if n == 1:
+        return (1, 0, 1, 0 if m >= 0 else 1)
+    if m == 0:
+        return (2, 0, 0, 4) if n == 2 else (3, n // 2 - 1, 0, 4)
+    acc = (n - 1) // 2 if m % 2 == 1 else (n - abs(m)) // 2 + 1
+    return (4, acc, abs(m), (0 if m % 2 == 1 else 2) + (0 if m >= 0 else 1))
+
+
+def _magang_expect(lst, groups):
+    """groups: [((n, a), [positions])] -> expected {(n, a): (magnitude, angle)} in order"""
+    out = []
+    for key, pos in groups:
+        v = [lst[i][2] for i in pos]
+        if len(v) == 1:
+            out.append((key, (v[0], 0.0)))
+        elif len(v) == 2:
+            out.append((key, (math.hypot(v[0], v[1]), math.degrees(math.atan2(v[0], v[1])))))
+        else:
+            out.append((key, None))
+    return out
+
+
+def _py_groups(lst):
+    d = {}
+    for i, (n, m, _) in enumerate(lst):
+        d.setdefault((n, abs(m)), []).append(i)
+    return list(d.items())
+
+
+def _magang_check2(P, lst, groups):
+    """-> (fail, note).  `fail`: what follows from the property — an exception, a wrong +-m pairing (the set of (n, |m|) keys),
+    a lost term (sum of magnitude^2 != sum of c^2; fewer entries in the name-keyed dict than classes).
+    `note`: consumer conventions that are NOT part of the property (order of the dict, magnitude / angle convention, key strings)."""
+    exp = _magang_expect(lst, groups)
+    if any(e[1] is None for e in exp):
+        return None, None
+    note = None
+    st, val = _call2(P.zernikes_to_magnitude_angle_nmkey, [tuple(x) for x in lst])
+    if st != 'ok':
+        return f'zernikes_to_magnitude_angle_nmkey {st}: {val}', None
+    got = val
+    if not isinstance(got, dict):
+        return f'zernikes_to_magnitude_angle_nmkey returned {type(got).__name__}', None
+    try:
+        gk = [tuple(int(x) for x in k) for k in got.keys()]
+        energy = sum(float(v[0]) ** 2 for v in got.values())
+    except Exception as ex:   # noqa
+        return f'zernikes_to_magnitude_angle_nmkey: unusable result ({type(ex).__name__}: {ex})', None
+    ek = [k for k, _ in exp]
+    if sorted(gk) != sorted(ek):
+        only_g, only_e = sorted(set(gk) - set(ek))[:4], sorted(set(ek) - set(gk))[:4]
+        return (f'+-m pairing: the result has the groups {only_g}… that are no (n, |m|) class of the input / misses the classes {only_e}… '
+                f'({len(gk)} groups for {len(ek)} classes)'), None
+    total = sum(float(c) ** 2 for _, _, c in lst)
+    if abs(energy - total) > 1e-9 * max(1.0, total):
+        return f'a term is lost or counted twice: sum of magnitude^2 over the groups = {energy!r}, sum of c^2 over the terms = {total!r}', None
+    if gk != ek:
+        note = 'groups are not in order of first appearance'
+    else:
+        for (k, (mag, ang)), v in zip(exp, got.values()):
+            gm, ga = float(v[0]), float(v[1])
+            if abs(gm - mag) > 1e-12 * max(1.0, abs(mag)) or abs(ga - ang) > 1e-9:
+                note = f'group {k}: (magnitude, angle) = ({gm!r}, {ga!r}); the model has ({mag!r}, {ang!r}) = (hypot, degrees(atan2(first, second)))'
+                break
+    st, val = _call2(P.zernikes_to_magnitude_angle, [tuple(x) for x in lst])
+    if st != 'ok':
+        return f'zernikes_to_magnitude_angle {st}: {val}', note
+    named = val
+    if not isinstance(named, dict) or len(named) != len(exp):
+        return (f'zernikes_to_magnitude_angle returns {len(named) if hasattr(named, "__len__") else named!r} entries for {len(exp)} (n, |m|) '
+                f'classes: two classes share a key and one overwrites the other (a term is lost)'), note
+    if note is None and gk == ek:
+        for (k, _), (nk, nv), v in zip(exp, named.items(), got.values()):
+            full = P.nm_to_name(*k)
+            st_ = _parse_name(_zk()[1], full) if isinstance(full, str) else None
+            want = full if (st_ is None or st_[0] in (0, 2, 3)) else ' '.join(full.split(' ')[:-1])
+            try:
+                same_v = (float(nv[0]), float(nv[1])) == (float(v[0]), float(v[1]))
+            except Exception:   # noqa
+                same_v = False
+            if nk != want or not same_v:
+                note = f'class {k}: entry {nk!r}: {nv}; the model has the class name without suffix, {want!r}: {v}'
+                break
+    return None, note
+
+
+def _magang_check(P, lst, groups):
+    """property-level predicate only (see _magang_check2)"""
+    return _magang_check2(P, lst, groups)[0]
+
+
+def _topn_check(P, lst, k):
+    d = {(n, m): c for n, m, c in lst}
+    st, val = _call2(P.top_n, d, k)
+    if st != 'ok':
+        return f'top_n {st}: {val}'
+    res = list(val)
+    keys, vals = list(d.keys()), list(d.values())
+    order = sorted(range(len(vals)), key=lambda i: -abs(vals[i]))[:k]
+    if len(res) != k:
+        return f'top_n(…, {k}) returned {len(res)} entries'
+    for rank, ((v, i, name), j) in enumerate(zip(res, order)):
+        if int(i) != j or float(v) != float(vals[j]) or str(name) != P.nm_to_name(*keys[j]):
+            return (f'entry {rank} is ({v}, {i}, {name}); the term with the {rank + 1}-largest |coefficient| is position {j}, '
+                    f'{keys[j]} = {vals[j]}, {P.nm_to_name(*keys[j])}')
+    return None
+
+
+def _barplot_check(P, lst, sort, orientation, with_err):
+    """barplot_magnitudes: one bar per (n, |m|) class, labelled with the class name, height |magnitude|; sort=True orders
+    bars, labels (and error bars) by the SAME permutation, ascending magnitude.  Returns a detail string or None."""
+    import matplotlib
+    matplotlib.use('Agg')
+    from matplotlib import pyplot as plt
+    nms = [(n, m) for n, m, _ in lst]
+    cs = np.array([c for _, _, c in lst])
+    named = P.zernikes_to_magnitude_angle([tuple(x) for x in lst])
+    exp = [(k, abs(float(v[0]))) for k, v in named.items()]
+    if sort:
+        exp = sorted(exp, key=lambda kv: kv[1])
+    st, val = _call2(P.zernike_barplot_magnitudes, cs, nms, 0.1 * abs(cs) if with_err else None, orientation, sort)
+    if st != 'ok':
+        return f'barplot_magnitudes {st}: {val}'
+    fig, ax = val
+    try:
+        if orientation == 'h':
+            labels = [t.get_text() for t in ax.get_xticklabels()]
+            sizes = [float(q.get_height()) for q in ax.patches]
+        else:
+            labels = [t.get_text() for t in ax.get_yticklabels()]
+            sizes = [float(q.get_width()) for q in ax.patches]
+        segs = [np.asarray(sg) for c_ in ax.collections for sg in c_.get_segments()] if with_err else []
+    finally:
+        plt.close(fig)
+    got = list(zip(labels, sizes))
+    if with_err:
+        # the error of a class is the magnitude of its error-bar coefficients = 0.1 * magnitude (all coefficients scaled by 0.1)
+        ax_ = 1 if orientation == 'h' else 0
+        half = [abs(float(sg[1][ax_] - sg[0][ax_])) / 2 for sg in segs]
+        if len(half) != len(exp):
+            return f'{len(half)} error bars for {len(exp)} classes'
+        for i, (hf, (el, es)) in enumerate(zip(half, exp)):
+            if abs(hf - 0.1 * es) > 1e-9 * max(1.0, es):
+                return f'error bar {i} ({el!r}) has half-length {hf!r}, the class has error {0.1 * es!r}: error bars are not in the order of the bars'
+    if len(got) != len(exp):
+        return f'{len(got)} bars for {len(exp)} classes'
+    for i, ((gl, gs), (el, es)) in enumerate(zip(got, exp)):
+        if gl != el or abs(gs - es) > 1e-12 * max(1.0, es):
+            return f'bar {i} is ({gl!r}, {gs!r}), expected ({el!r}, {es!r})' + (' (bars and labels sorted by ascending magnitude)' if sort else '')
+    return None
+
+
+def _coef_lists(ctx, fwd, count):
+    """coefficient lists [(n, m, c)] as users build them: the first N orders of a convention (Noll / ANSI / Fringe), natural,
+    reversed or shuffled, optionally with terms dropped (unpaired +-m), a rotationally symmetric-only list, a single column"""
+    rng = ctx.rng
+    out = []
+    for t in range(count):
+        conv = ('noll', 'ansi', 'fringe')[t % 3]
+        N = int(rng.integers(1, 90 if t % 7 else 400))
+        js = list(range(FIRST[conv], FIRST[conv] + N))
+        nms = [tuple(closed_form(conv, j)) for j in js]
+        mode = ('natural', 'reversed', 'shuffled', 'dropped', 'column')[t % 5]
+        if mode == 'reversed':
+            nms = nms[::-1]
+        elif mode == 'shuffled':
+            nms = [nms[i] for i in rng.permutation(len(nms))]
+        elif mode == 'dropped':
+            keep = rng.random(len(nms)) < 0.6
+            nms = [x for x, kp in zip(nms, keep) if kp] or nms[:1]
+        elif mode == 'column':
+            a = int(rng.integers(0, 9))
+            nms = [x for x in nms if abs(x[1]) == a] or nms[:1]
+        if t % 4 == 3:      # integer coefficients with pairwise different magnitudes (as in hand-written tables)
+            cs = [int(v) * (1 if sg else -1) for v, sg in zip(rng.permutation(len(nms)) + 1, rng.random(len(nms)) < 0.5)]
+            mode += '+int'
+        else:
+            cs = rng.standard_normal(len(nms)) + 0.05 * np.sign(rng.standard_normal(len(nms)))
+            cs = [float(c) if c != 0 else 0.5 for c in cs]
+        out.append((f'{conv}:{mode}', [(int(n), int(m), c) for (n, m), c in zip(nms, cs)]))
+    return out
+
+
+NAME_ITEMS = ('name_accessor', 'spherical_accessor', 'nm_to_name', 'magang_key', 'magang_name_rule', 'names_table', 'names_m_table')
+
+
+def _names_correspondence(ctx):
+    """SCOPE: the names, the magnitude/angle dict, top_n and the bar plots CONSUME the index conventions; the property does not
+    say how names are spelled, numbered or ordered.  Property-level failures (red) are only: an exception on a valid order / a
+    valid coefficient list, two valid orders with one name (a term of an expansion is lost where names are keys), a wrong +-m
+    pairing, a lost term in zernikes_to_magnitude_angle(_nmkey).  Every other difference from the hand model (structure of the
+    string, word count, ordinal scheme, order of dict / top_n / bars, angle convention) is recorded as a consumer NOTE in the
+    evidence (`consumer-note:<family>` counters + notes) and never makes the run red."""
+    P, Z = _zk()
+    wide = getattr(ctx, 'widen_names', ctx.widen)
+    NN = ctx.scale(80, 400)
+    if wide:
+        NN = max(NN, 200)
+    pairs = [(n, m) for n in range(NN + 1) for m in range(-n, n + 1, 2)]
+    lists = _coef_lists(ctx, None, ctx.scale(120, 1200) * (3 if wide else 1))      # degraded tie: three times the lists
+    lines = []
+    for a in range(0, len(pairs), 4000):
+        lines.append('namekeys ' + ' '.join(f'{n} {m}' for n, m in pairs[a:a + 4000]))
+    for _, lst in lists:
+        lines.append('group ' + ' '.join(f'{n} {m}' for n, m, _ in lst))
+    rep = iter(C.lean_driver('C11', lines))
+    keys = []
+    for a in range(0, len(pairs), 4000):
+        t = list(map(int, next(rep).split()))
+        keys += [tuple(t[i:i + 5]) for i in range(0, len(t), 5)]
+    first_note = {}
+
+    def note(family, text):
+        ctx.hist[f'consumer-note:{family}'] += 1
+        first_note.setdefault(family, text)
+
+    # ---- names: one-to-one (property level); structure = model (consumer note)
+    seen = {}
+    nbad = 0
+    for (n, m), key5 in zip(pairs, keys):
+        key, words = key5[:4], key5[4]
+        case = {'n': n, 'm': m}
+        ctx.case('name', case, nontrivial=n >= 2, tag=f'kind{key[0]}' + (f'suf{key[3]}' if key[0] == 4 else ''))
+        args = (n, m) if (n + m) % 3 else (np.int64(n), np.int64(m))
+        st, name = _call2(P.nm_to_name, *args)
+        if st != 'ok':
+            if nbad < 3:
+                nbad += 1
+                ctx.disagree('name', case, f'{st}: {name}', 'a name')
+                ctx.pred_fail('name', case, f'nm_to_name({n}, {m}) {st}: {name} (a valid order has no name)')
+            continue
+        got = _parse_name(Z, name)
+        if got != key:
+            note('name', f'nm_to_name({n}, {m}) = {name!r}: structure {got}, the hand model has (kind, ordinal, |m|, suffix) = {key}')
+        elif isinstance(name, str) and len(name.split(' ')) != words:
+            note('name', f'nm_to_name({n}, {m}) = {name!r} has {len(name.split(" "))} words, the hand model {words}')
+        try:
+            dup = name in seen
+        except TypeError:
+            dup = False
+        if dup and nbad < 3:
+            nbad += 1
+            n0, m0 = seen[name]
+            c2 = {'n': n, 'm': m, 'n2': n0, 'm2': m0}
+            ctx.disagree('name', c2, name, 'a name of its own')
+            ctx.pred_fail('name', c2, f'nm_to_name({n0}, {m0}) = nm_to_name({n}, {m}) = {name!r}: two valid orders share one name '
+                          '(where names are keys — zernikes_to_magnitude_angle — one term overwrites the other)')
+        if not dup:
+            try:
+                seen[name] = (n, m)
+            except TypeError:
+                pass
+    # ---- pairing of the +-m terms / no lost term (property level); conventions of the consumers (notes)
+    nbad = 0
+    for (tag, lst) in lists:
+        t = next(rep).split()
+        groups = []
+        i = 0
+        while i < len(t):
+            n_, a_, ln = int(t[i]), int(t[i + 1]), int(t[i + 2])
+            groups.append(((n_, a_), [int(x) for x in t[i + 3:i + 3 + ln]]))
+            i += 3 + ln
+        npair = sum(1 for _, p in groups if len(p) == 2)
+        ctx.case('magang', {'tag': tag, 'len': len(lst), 'first': list(lst[0]), 'c': lst[-1][2]}, nontrivial=npair > 0 and len(groups) > npair,
+                 tag=tag.split(':')[1].split('+')[0] + (':int' if tag.endswith('+int') else '') + (':pairs+singles' if 0 < npair < len(groups) else ':pairs' if npair else ':singles'))
+        d, nt = _magang_check2(P, lst, groups)
+        if nt:
+            note('magang', nt)
+        if d and nbad < 2:
+            nbad += 1
+            small = _shrink_coefs(P, lst, lambda l: _magang_check(P, l, _py_groups(l)))
+            ctx.disagree('magang', {'coefs': small}, d, 'groups of the model')
+            ctx.pred_fail('magang', {'coefs': small}, _magang_check(P, small, _py_groups(small)) or d)
+        # top_n ordering on the same coefficients (distinct |c| almost surely): consumer, notes only
+        k = int(ctx.rng.integers(1, len(lst) + 1))
+        ctx.case('top_n', {'tag': tag, 'len': len(lst), 'k': k, 'c': lst[0][2]}, nontrivial=1 < k, tag='all' if k == len(lst) else 'some')
+        try:
+            d = _topn_check(P, lst, k)
+        except Exception as ex:   # noqa
+            d = f'result of top_n not understood ({type(ex).__name__}: {ex})'
+        if d:
+            note('top_n', d)
+
+    # ---- barplot_magnitudes: bars, labels and sort permutation (a few lists; matplotlib, Agg): consumer, notes only; the
+    #      family is skipped (with a note) when matplotlib / its Agg backend cannot be used
+    nb = ctx.scale(10, 60) * (3 if wide else 1)
+    try:
+        import matplotlib
+        matplotlib.use('Agg')
+        from matplotlib import pyplot as _plt    # noqa
+        have_mpl = True
+    except BaseException as ex:   # noqa  (a broken backend may raise anything)
+        have_mpl = False
+        ctx.notes.append(f'barplot family skipped: matplotlib / Agg backend not usable ({type(ex).__name__}: {ex})')
+    for t, (tag, lst) in enumerate(lists[:nb] if have_mpl else []):
+        lst = lst[:60]
+        sort, orient, err = bool(t % 2), ('h', 'v')[(t // 2) % 2], bool((t // 4) % 2)
+        try:
+            d = _barplot_check(P, lst, sort, orient, err)
+        except BaseException as ex:   # noqa
+            if isinstance(ex, KeyboardInterrupt):
+                raise
+            ctx.notes.append(f'barplot family stopped: {type(ex).__name__}: {ex}')
+            break
+        ctx.case('barplot', {'tag': tag, 'len': len(lst), 'sort': sort, 'orientation': orient, 'c': lst[0][2]}, nontrivial=len(lst) > 2,
+                 tag=('sorted' if sort else 'unsorted') + ':' + orient + (':err' if err else ''))
+        if d:
+            note('barplot', d)
+    for fam, text in first_note.items():
+        ctx.notes.append(f'consumer layer ({fam}), not part of the property — {ctx.hist[f"consumer-note:{fam}"]} difference(s) from the hand '
+                         f'model, recorded only; first: {text}')
+
+
+def _shrink_coefs(P, lst, fails):
+    """greedy removal of terms while the predicate still fails"""
+    cur = [list(x) for x in lst]
+    changed = True
+    while changed and len(cur) > 1:
+        changed = False
+        for i in range(len(cur) - 1, -1, -1):
+            if len(cur) <= 1:
+                break
+            trial = cur[:i] + cur[i + 1:]
+            try:
+                bad = fails([tuple(x) for x in trial])
+            except Exception:
+                bad = None
+            if bad:
+                cur = trial
+                changed = True
+    return cur
+
+
+def _names_search(ctx):
+    """property-level predicates of the name layer only: an exception on a valid order, two valid orders with one name, wrong
+    pairing / lost term in zernikes_to_magnitude_angle(_nmkey)"""
+    P, Z = _zk()
+    seen = {}
+    for n in range(0, ctx.scale(60, 120)):
+        for m in range(-n, n + 1, 2):
+            st, name = _call2(P.nm_to_name, n, m)
+            if st != 'ok':
+                return {'item': 'name', 'input': {'n': n, 'm': m}, 'detail': f'nm_to_name({n}, {m}) {st}: {name}'}
+            try:
+                if name in seen:
+                    n0, m0 = seen[name]
+                    return {'item': 'name', 'input': {'n': n, 'm': m, 'n2': n0, 'm2': m0},
+                            'detail': f'nm_to_name({n0}, {m0}) = nm_to_name({n}, {m}) = {name!r}: two valid orders share one name'}
+                seen[name] = (n, m)
+            except TypeError:
+                pass
+    for tag, lst in _coef_lists(ctx, None, 60):
+        d = _magang_check(P, lst, _py_groups(lst))
+        if d:
+            small = _shrink_coefs(P, lst, lambda l: _magang_check(P, l, _py_groups(l)))
+            return {'item': 'magang', 'input': {'coefs': small}, 'detail': _magang_check(P, small, _py_groups(small)) or d}
+    return None
+
+
+def _names_replay(item, c):
+    P, Z = _zk()
+    if item == 'name':
+        n, m = c['n'], c['m']
+        st, val = _call2(P.nm_to_name, n, m)
+        name = val
+        print(f'nm_to_name({n}, {m}) -> {st} {name!r}; structure {_parse_name(Z, name) if st == "ok" else None}, the hand model has {_name_key(n, m)} '
+              '(a different spelling / scheme is not a violation; an exception or a shared name is)')
+        bad = st != 'ok'
+        if 'n2' in c:
+            other = _call2(P.nm_to_name, c['n2'], c['m2'])
+            print(f'nm_to_name({c["n2"]}, {c["m2"]}) -> {other}')
+            bad = bad or (other[0] == 'ok' and other[1] == val)
+        return bad
+    lst = [tuple(x) for x in c['coefs']]
+    if item == 'magang':
+        print('zernikes_to_magnitude_angle_nmkey ->', _call2(P.zernikes_to_magnitude_angle_nmkey, lst))
+        print('zernikes_to_magnitude_angle       ->', _call2(P.zernikes_to_magnitude_angle, lst))
+        d = _magang_check(P, lst, _py_groups(lst))
+        print('predicate:', d or 'holds')
+        return bool(d)
+    if item == 'barplot':
+        d = _barplot_check(P, lst, c['sort'], c['orientation'], c['errorbars'])
+        print(f"barplot_magnitudes(sort={c['sort']}, orientation={c['orientation']!r}) on {lst}")
+        print('predicate:', d or 'holds')
+        return bool(d)
+    if item == 'top_n':
+        print('top_n ->', _call2(P.top_n, {(n, m): v for n, m, v in lst}, c['k']))
+        d = _topn_check(P, lst, c['k'])
+        print('predicate:', d or 'holds')
+        return bool(d)
+    return False
+
 
 # ------------------------------------------------------------------------------------------------
 # search: the property's predicates on the real code, smallest failing input first
@@ -787,7 +1274,7 @@ def search(ctx, hints):
     # corpus / hints first
     for pf in hints.get('pred_failures', []):
         c = pf['case']
-        if 'j' in c:
+        if 'j' in c or pf['item'] in ('name', 'magang'):
             return {'item': pf['item'], 'input': c, 'detail': pf['detail']}
     best = None
     for conv in CONVS:
@@ -805,6 +1292,9 @@ def search(ctx, hints):
             del ctx.pred_failures[n0:]
             ctx.disagreements.pop()
             return {'item': pf['item'], 'input': pf['case'], 'detail': pf['detail']}
+    r = _names_search(ctx)
+    if r:
+        return r
     # valid pairs through the real inverses
     for conv in ('ansi', 'fringe'):
         for n in range(0, 60):
@@ -829,6 +1319,8 @@ def replay(inp):
     item, c = inp['item'], inp['input']
     conv = item.split('_')[0]
     print('replaying', item, {k: v for k, v in c.items() if k != 'sequence'})
+    if item in ('name', 'magang', 'top_n', 'barplot'):
+        return _names_replay(item, c)
     if 'dtype' in c:
         r = _raw()
         kinds = {**_NPKINDS, **_NARROW}
@@ -921,6 +1413,30 @@ MANIFEST_ENTRY = {
              '(proved in range: no IndexError) and the three while loops of xy_j_to_mn (fuel-bounded recursion; proved that the '
              'fuel j never runs out); the translated obligations are proved semantically (outermost operator matched, arguments '
              'by ring/omega), so reordered summands, a conditional instead of (1+sign m)/2, // for int(/) etc. do not alarm. '
+             'NAMES / PAIRING (session 3): also re-translated every run: _name_accessor (whole body), the spherical ordinal of nm_to_name, '
+             'nm_to_name + _name_helper as a whole with every string replaced by its structure code (kind, ordinal, column word, suffix), the '
+             'grouping key of zernikes_to_magnitude_angle_nmkey, the whole-name / strip-last-word rule of zernikes_to_magnitude_angle, and the tables '
+             '_names / _names_m; proved for every valid order: nm_to_name '
+             'returns (never raises) the structure of the model (gen_nameKey), that structure is one-to-one on the valid orders '
+             '(name_injective, name_key_injective; the ordinal of a column is (n-|m|)/2+1 for even m, (n-1)/2 for odd m), table keys and '
+             'words pairwise different; two coefficients are grouped exactly when they are the +m / -m terms of one (n,|m|) '
+             '(magang_pairs_exactly_pm), a list naming each order once has groups of at most two (no 3-argument arctan2), the grouping '
+             'specification partitions the positions (magang_grouping_partition), the dict keys of zernikes_to_magnitude_angle are one-to-one on '
+             'the classes at structure level (gen_keepsWholeName + magang_name_keys_injective), suffix X/00 <-> m>0 and Noll even index <-> '
+             'cosine NAME (name_suffix_iff_cosine, noll_even_iff_cosine_name). '
+             'SCOPE GUARD: names, the magnitude/angle dict, top_n and the bar plots are CONSUMERS of the conventions, not part of the statement. '
+             'Every name-layer translator item is first executed on a grid of valid orders (n<=40); when the source follows another naming '
+             'scheme / spelling / key rule than the hand model the item is untranslatable (TIE-DEGRADED, name families widened, index sweeps not) '
+             'and its theorems speak about the hand model only. RED at the name layer is only what follows from the statement: an exception on '
+             'a valid order / list, two valid orders with ONE name (terms collapse where names are keys), a wrong +-m grouping (set of (n,|m|) keys), '
+             'a lost term (sum of magnitude^2 != sum of c^2, or fewer named entries than classes). String structure, word count, ordinal scheme, '
+             'X/Y or degree glyph, order of dict / top_n / bars, angle convention are recorded as consumer notes in the evidence and never make '
+             'the run red; the barplot family is skipped with a note when matplotlib/Agg is unusable. Wall-clock guards are CPU-time limits '
+             '(a stalled machine is not a non-terminating map). '
+             'Compared only: that the real strings have that structure and are pairwise different (all valid n<=80/400), magnitude = hypot, '
+             'angle = degrees(atan2(first, second)), order of groups = first appearance, zernikes_to_magnitude_angle loses no class, '
+             'top_n returns the k largest |c| in descending order with matching position and name; barplot_magnitudes draws one bar per class, label and height '
+             'from the same class, sort=True permutes bars and labels together (ascending). '
              'The floating-point idioms ceil(sqrt(D)) and ceil((A+sqrt(D))/2) are read as exact integers; proved: that reading is '
              'the real-number ceiling (ceil_sqrt_exact, ceil_half_sqrt_exact) AND, for any rounding fl with relative error <= 2^-53, '
              'monotone, exact on integers <= 2^26 (the IEEE binary64 round-to-nearest contract), ceil(fl(sqrt D)) = ceil(sqrt D) '
@@ -944,6 +1460,7 @@ MANIFEST_ENTRY = {
              'IEEE-754 conformance of np.sqrt / np.ceil and exactness of the small-integer double arithmetic (validated by the '
              'sweeps). Out of scope: indices with sqrt argument >= 2^52 (first Fringe failure j=2^52+1); fixed-width NumPy '
              'integers narrower than the arithmetic needs (8*idx overflows for uint8 from j=32, int16 from j=4096, int32 from '
-             'j=2^28: observed, outside the stated quantifier, not fixed); nm_to_name / top_n. With a degraded tie a defect that '
+             'j=2^28: observed, outside the stated quantifier, not fixed); the string layer of nm_to_name (f-string layout, that different structure codes print differently) '
+             'is compared, not proved; top_n with ties in |c| or k > len (unspecified / raises); barplot (plain) not covered; barplot_magnitudes only for bar / label order (matplotlib Agg, a few lists). With a degraded tie a defect that '
              'only shows beyond Noll row 5*10^6 / XY row 3*10^6 would pass.'),
 }
